@@ -319,9 +319,13 @@ def run(case):
                     break
                 sim.sleep(0.5)
             sim.sleep(0.3)  # the command the pump has just taken off the queue may still be inside a (slow) send
-            for _ in range(40):
+            for _ in range(60):
                 if not sim.stalled() and not gateway.tasks.queue:
-                    break
+                    # (a stall may be followed at once by the next one, or by a slow send: only a quiet 0.3 s counts)
+                    sim.sleep(0.3)
+                    if not sim.stalled() and not gateway.tasks.queue:
+                        break
+                    continue
                 sim.sleep(0.1)  # ... or its thread is sitting out an injected stall with the command in hand
             world.device.write_hook = None
             if cfg["event"] == "both_errors" and not probes.get("write_and_read_error_together"):
